@@ -205,33 +205,23 @@ func regStd() {
 		a, b := ex.asTerm(st, c.Args[0]), ex.asTerm(st, c.Args[1])
 		return one(st, Ite(Eq(a, b), IntLit(1), IntLit(0)))
 	})
-	regEnv("io.ReadFull", "io.ReadFull(rand.Reader, buf): fills buf with arbitrary bytes or returns an error (unguessability not modelled)", func(ex *Executor, st *State, c *callCtx) []callResult {
-		n, err := ex.Fresh("n", SInt), ex.freshErr(st, "readfull")
-		if b, ok := c.Args[1].(*BufV); ok {
-			old, _ := st.Cells[b.Cell].(*Term)
+	readRand := func(ex *Executor, st *State, c *callCtx, bufArg Value) []callResult {
+		n, err := ex.Fresh("n", SInt), ex.freshErr(st, "randread")
+		if b, ok := bufArg.(*BufV); ok {
 			nw := ex.Fresh("rnd", SStr)
-			if old != nil {
-				st.Fact(Eq(StrLen(nw), StrLen(old)))
-			}
-			st.Cells[b.Cell] = nw
+			st.Fact(Eq(StrLen(nw), Sub(b.Hi, b.Lo)))
+			ex.bufWrite(st, b, IntLit(0), nw)
 			st.Emit("Rand.Read", []Value{nw}, []Value{err}, ex.pos(c.Pos))
 		} else {
-			st.Note("io.ReadFull into %s", showValue(c.Args[1]))
+			st.Note("random read into %s", showValue(bufArg))
 		}
 		return one(st, &TupleV{V: []Value{n, err}})
+	}
+	regEnv("io.ReadFull", "io.ReadFull(rand.Reader, buf): fills buf with arbitrary bytes or returns an error (unguessability not modelled)", func(ex *Executor, st *State, c *callCtx) []callResult {
+		return readRand(ex, st, c, c.Args[1])
 	})
 	regEnv("crypto/rand.Read", "rand.Read(buf): fills buf with arbitrary bytes or returns an error", func(ex *Executor, st *State, c *callCtx) []callResult {
-		n, err := ex.Fresh("n", SInt), ex.freshErr(st, "randread")
-		if b, ok := c.Args[0].(*BufV); ok {
-			old, _ := st.Cells[b.Cell].(*Term)
-			nw := ex.Fresh("rnd", SStr)
-			if old != nil {
-				st.Fact(Eq(StrLen(nw), StrLen(old)))
-			}
-			st.Cells[b.Cell] = nw
-			st.Emit("Rand.Read", []Value{nw}, []Value{err}, ex.pos(c.Pos))
-		}
-		return one(st, &TupleV{V: []Value{n, err}})
+		return readRand(ex, st, c, c.Args[0])
 	})
 
 	// ---- time -------------------------------------------------------------------
